@@ -28,7 +28,6 @@ def expected_commands(job):
 
 
 def run_execution(cfg, prefix, record=False):
-    job = JOBS[cfg["job"]]
     fw = LineFirmware(cfg["dialect"], cfg["corrupt"], greeting=cfg["greeting"])
     ex = Execution(prefix, fw, eager_env=cfg["eager"], line_points=cfg["line_points"], horizon=cfg.get("horizon", 12000),
                    record_points=record)
@@ -42,18 +41,22 @@ def run_execution(cfg, prefix, record=False):
         p.connect("fake", 115200)
         while not p.online:
             sleep(0.01)
-        marks["job_start"] = len(ex.dev.log)
-        ok = p.startprint(gcoder.GCode(list(job)))
-        marks["started"] = ok
-        while p.printing:
-            sleep(0.01)
-        marks["print_end"] = len(ex.dev.log)
-        # drain: let every reply still in flight arrive and be handled
-        idle = 0
-        while idle < 3:
-            sleep(0.01)
-            idle = idle + 1 if not (ex.dev.pending or ex.dev.rx or p.printing) else 0
-        marks["drained"] = len(ex.dev.log)
+        marks["jobs"] = []
+        for jname in cfg["job"].split("+"):
+            jm = {"name": jname, "job_start": len(ex.dev.log), "accepted_start": len(fw.accepted)}
+            marks["jobs"].append(jm)
+            jm["started"] = p.startprint(gcoder.GCode(list(JOBS[jname])))
+            while p.printing:
+                sleep(0.01)
+            jm["print_end"] = len(ex.dev.log)
+            # drain: let every reply still in flight arrive and be handled
+            idle = 0
+            while idle < 3:
+                sleep(0.01)
+                idle = idle + 1 if not (ex.dev.pending or ex.dev.rx or p.printing) else 0
+            jm["drained"] = len(ex.dev.log)
+            jm["accepted_end"] = len(fw.accepted)
+        marks["job_start"] = marks["jobs"][0]["job_start"]
         p.disconnect()
         marks["done"] = True
     with ex:
@@ -65,8 +68,7 @@ def check_execution(cfg, ex, marks, leaked):
     """Returns list of (sig, msg)."""
     P = []
     S, fw, dev = ex.S, ex.fw, ex.dev
-    job = JOBS[cfg["job"]]
-    want = expected_commands(job)
+    jobs = marks.get("jobs") or [{"name": cfg["job"].split("+")[0], "job_start": marks.get("job_start", 0), "accepted_start": 0}]
     if leaked:
         P.append(("harness:leaked-threads", f"threads {leaked} did not stop"))
     for t in S.threads:
@@ -79,13 +81,25 @@ def check_execution(cfg, ex, marks, leaked):
     if S.status != "done":
         P.append((f"no-termination:{S.status}", f"execution ended as {S.status} after {S.steps} steps; threads: "
                   + ", ".join(f"{t.name}={t.status}@{t.label}" for t in S.threads)))
-    # ---- wire format
-    tx = [(i, l) for i, (k, l) in enumerate(dev.log) if k == "tx"]
     if any(k == "tx-malformed" for k, _ in dev.log):
         P.append(("wire:malformed-transmission", "a transmission is not exactly one newline-terminated line"))
-    start = marks.get("job_start", 0)
+    for ji, jm in enumerate(jobs):
+        last_job = ji == len(jobs) - 1
+        end = jobs[ji + 1]["job_start"] if not last_job else len(dev.log)
+        want = expected_commands(JOBS[jm["name"]])
+        accepted = fw.accepted[jm["accepted_start"]: (jm.get("accepted_end") if jm.get("accepted_end") is not None else len(fw.accepted))]
+        P += check_job(cfg, S, fw, dev, marks, jm["job_start"], end, want, accepted, complete_expected=("drained" in jm), tag=("" if ji == 0 else f":job{ji + 1}"))
+    return P
+
+
+def check_job(cfg, S, fw, dev, marks, start, end, want, accepted, complete_expected, tag):
+    P = []
+    # ---- wire format
+    tx = [(i, l) for i, (k, l) in enumerate(dev.log) if k == "tx" and i < end]
     delivered_requests = []   # (log index, n) for every 'Resend: n' delivered to the host
     for i, (k, l) in enumerate(dev.log):
+        if i < start or i >= end:
+            continue
         if k == "deliver" and (l.lower().startswith("resend") or l.startswith("rs")):
             delivered_requests.append((i, int(re.findall(r"-?\d+", l)[0])))
     numbered = []
@@ -127,23 +141,23 @@ def check_execution(cfg, ex, marks, leaked):
                 P.append(("wire:restart-not-requested", f"transmission jumps from N{prev} to N{k} but the firmware had requested {asked}"))
         prev = k
     # ---- safety + completion
-    if fw.accepted != want[:len(fw.accepted)]:
-        P.append(("accepted-not-a-prefix", f"firmware executed {fw.accepted}, job is {want}"))
-    elif S.status == "done" and fw.accepted != want:
+    if accepted != want[:len(accepted)]:
+        P.append(("accepted-not-a-prefix" + tag, f"firmware executed {accepted}, job is {want}"))
+    elif S.status == "done" and complete_expected and accepted != want:
         # known-finding shape: the host ran one line ahead because of an extra ok (Marlin's ok after Resend, or the ok of
         # the probing G4 P0 behind a greeting), the print thread had already transmitted its last line when the Resend
         # arrived, and nobody served it.  Anything else (a Resend ignored while lines were still being sent, a crashed
         # thread, a different firmware dialect) is reported as a plain violation.
         last_numbered = max([i for i, k in numbered], default=-1)
-        unserved = [n for (j, n) in delivered_requests if j > last_numbered and n >= len(fw.accepted)]
+        unserved = [n for (j, n) in delivered_requests if j > last_numbered and n >= len(accepted)]
         extra_ok = "dialect=A" if (cfg["dialect"] == "A" and cfg["corrupt"]) else \
                    ("greeting=start" if cfg["greeting"] == "start" else "none")
         crashed = any(t.exc is not None for t in S.threads) or any(not str(e).startswith("Error") for e in marks.get("errors", []))
         if unserved and extra_ok != "none" and not crashed:
-            P.append((f"tail-lost:unserved-resend:{extra_ok}", f"job {want}: firmware executed only {fw.accepted}; Resend {unserved} was never served "
+            P.append((f"tail-lost:unserved-resend:{extra_ok}", f"job {want}: firmware executed only {accepted}; Resend {unserved} was never served "
                       f"(corrupted transmissions {sorted(cfg['corrupt'])}, dialect {cfg['dialect']}, greeting {cfg['greeting']})"))
         else:
-            P.append(("job-incomplete", f"job {want}: firmware executed only {fw.accepted} (corrupt {sorted(cfg['corrupt'])}, dialect {cfg['dialect']}, greeting {cfg['greeting']})"))
+            P.append(("job-incomplete" + tag, f"job {want}: firmware executed only {accepted} (corrupt {sorted(cfg['corrupt'])}, dialect {cfg['dialect']}, greeting {cfg['greeting']})"))
     return P
 
 
@@ -203,6 +217,14 @@ def plan(tier):
                 items.append(({**base, "line_points": True}, 0, None))
                 if corrupt == (1,):
                     items.append(({**base, "line_points": False}, 1, None))
+        # two jobs back to back on one connection: the second one starts from the state the first one left behind
+        for dialect in ("A", "B", "C"):
+            for greeting in (None, "start"):
+                for corrupt in fault_patterns(6, 1):
+                    base = {"job": "J3+J2", "dialect": dialect, "greeting": greeting, "eager": False, "corrupt": corrupt}
+                    items.append(({**base, "line_points": True}, 0, None))
+                    if corrupt in ((), (4,)) and greeting is None:
+                        items.append(({**base, "line_points": False}, 1, None))
         for dialect in ("A", "B"):
             for greeting in (None, "start"):
                 for eager in (False, True):
@@ -216,6 +238,14 @@ def plan(tier):
                         if corrupt == (1,) and not eager and greeting is None:
                             items.append(({**base, "line_points": False}, 2, None))
     else:
+        for dialect in ("A", "B", "C"):
+            for greeting in (None, "start"):
+                for eager in (False, True):
+                    for corrupt in fault_patterns(8, 2):
+                        base = {"job": "J3+J4", "dialect": dialect, "greeting": greeting, "eager": eager, "corrupt": corrupt}
+                        items.append(({**base, "line_points": True}, 0, None))
+                        if len(corrupt) <= 1 and not eager:
+                            items.append(({**base, "line_points": False}, 1, None))
         for job in ("J3", "J4", "J2"):
             for dialect in ("A", "B", "C"):
                 for greeting in (None, "start"):
